@@ -43,6 +43,28 @@ def iterObj : Obj → Option (List Obj)
   | .dict ks _ => some ks
   | _ => none
 
+/-- `a + b`: ints and bools (a bool counts as 0 / 1), strs, bytes, tuples, lists. Floats, complex numbers and instances
+(IntEnum members among them) are opaque tokens in `Obj`: their arithmetic is outside this semantics (`none`), like every
+combination on which CPython raises TypeError. -/
+def addObj : Obj → Obj → Option Obj
+  | .int a, .int b => some (.int (a + b))
+  | .int a, .bool b => some (.int (a + if b then 1 else 0))
+  | .bool a, .int b => some (.int ((if a then 1 else 0) + b))
+  | .bool a, .bool b => some (.int ((if a then 1 else 0) + if b then 1 else 0))
+  | .str a, .str b => some (.str (a ++ b))
+  | .bytes a, .bytes b => some (.bytes (a ++ b))
+  | .tuple xs, .tuple ys => some (.tuple (xs ++ ys))
+  | .list xs, .list ys => some (.list (xs ++ ys))
+  | _, _ => none
+
+/-- `x += y`: a list is extended by the elements of any iterable (`list.__iadd__`), everything else is `x + y`.
+(In CPython the list object is extended in place; programs that reach it through another name as well are outside the
+property — "no mutation of containers through aliases" — and outside this value semantics.) -/
+def augObj (x y : Obj) : Option Obj :=
+  match x with
+  | .list xs => (iterObj y).map fun ys => .list (xs ++ ys)
+  | _ => addObj x y
+
 /-- sequential binding of the targets (a repeated name keeps the last value) -/
 def setAll (env : Env) : List Var → List Obj → Env
   | x :: xs, o :: os => setAll (env.set x o) xs os
@@ -120,6 +142,16 @@ def evalExpr (env : Env) (p : Path) : Expr → Option Obj × RLog
        | some r => (some r, lg ++ [(p, r)])
        | none => (none, lg))
     | (none, lg) => (none, lg)
+  | .add a b =>
+    match evalExpr env (0 :: p) a with
+    | (some x, lg) =>
+      (match evalExpr env (1 :: p) b with
+       | (some y, lg2) =>
+         (match addObj x y with
+          | some r => (some r, lg ++ lg2 ++ [(p, r)])
+          | none => (none, lg ++ lg2))
+       | (none, lg2) => (none, lg ++ lg2))
+    | (none, lg) => (none, lg)
 def evalList (env : Env) (p : Path) (k : Nat) : List Expr → Option (List Obj) × RLog
   | [] => (some [], [])
   | e :: es =>
@@ -146,6 +178,16 @@ def execStmt (env : Env) (p : Path) : Stmt → Outcome × RLog
     | (some o, lg) =>
       (match iterObj o with
        | some os => if os.length == xs.length then (.normal (setAll env xs os), lg) else (.raised, lg)
+       | none => (.raised, lg))
+    | (none, lg) => (.raised, lg)
+  | .aug x e =>
+    match evalExpr impl env (0 :: p) e with
+    | (some y, lg) =>
+      (match env.get x with
+       | some xv =>
+         (match augObj xv y with
+          | some r => (.normal (env.set x r), lg)
+          | none => (.raised, lg))
        | none => (.raised, lg))
     | (none, lg) => (.raised, lg)
   | .forS x e body =>
